@@ -107,14 +107,14 @@ def windowOrders {α} (k : Nat) (xs : List α) : List (List α) :=
 /-! ## structure tables (phase 3) -/
 
 /-- keys of the batch dict the loop body of `reconstruct_volumes` reads (`data[...]`, `data.get(...)`),
-and the calls that receive the whole dict — **`slice_no` is not among them** -/
+directly or inside private module-level helpers the batch is handed to (followed transitively, whatever
+they are called), and the other calls that receive the whole dict — **`slice_no` is not among them** -/
 def expectedLoopReads : List String :=
-  ["call _get_filename_from_batch(data)",
-   "call self._do_iteration(data, loss_fns=loss_fns, regularizer_fns=regularizer_fns)",
+  ["call self._do_iteration(data, loss_fns=loss_fns, regularizer_fns=regularizer_fns)",
    "data.get('reconstruction_size')",
+   "data['filename']",
    "data['scaling_factor']",
-   "data['target']",
-   "_get_filename_from_batch: data['filename']"]
+   "data['target']"]
 
 /-- the `curr_target` / `loss_dict_list` / yield statements of `reconstruct_volumes`, in source order -/
 def expectedTargetFacts : List String :=
@@ -156,20 +156,17 @@ def stateWritesOk (t : List (String × List String)) : Bool :=
 `write_output_to_h5` in `direct/inference.py`; and every call site of the three in the package -/
 def expectedCallerFacts : List String :=
   ["reconstruct_volumes: early exits in the loop over the batches: none",
-   "evaluate: for (_, output) in enumerate(self.reconstruct_volumes(data_loader, loss_fns=loss_fns, add_target=True, crop=self.cfg.validation.crop))",
+   "evaluate: iterates self.reconstruct_volumes(data_loader, loss_fns=loss_fns, add_target=True, crop=self.cfg.validation.crop)",
    "evaluate: early exits in the loop over the volumes: none",
-   "evaluate: (volume, target, volume_loss_dict, filename)=output",
-   "evaluate: val_volume_metrics[filename.name]=curr_metrics",
-   "evaluate: val_losses.append(volume_loss_dict)",
-   "validation_loop: for curr_validation_dataset in validation_datasets",
+   "evaluate: the yielded tuple has 4 components",
+   "evaluate: per-volume metrics keyed by yielded[3].name",
+   "evaluate: losses collect yielded[2]",
    "validation_loop: early exits in the loop over the datasets: none",
-   "validation_loop: curr_batch_sampler=self.build_batch_sampler(curr_validation_dataset, batch_size=self.cfg.validation.batch_size, sampler_type='sequential', limit_number_of_volumes=None)",
-   "validation_loop: curr_data_loader=self.build_loader(curr_validation_dataset, batch_sampler=curr_batch_sampler, num_workers=num_workers)",
-   "validation_loop: (curr_loss_dict, curr_metrics_per_case, visualize_slices, visualize_target)=self.evaluate(curr_data_loader, loss_fns)",
-   "inference_on_environment: output=env.engine.predict(dataset, experiment_path, checkpoint=checkpoint, num_workers=num_workers, batch_size=batch_size, crop=crop)",
+   "validation_loop: per DATASET in validation_datasets: self.evaluate(self.build_loader(DATASET, batch_sampler=self.build_batch_sampler(DATASET, batch_size=self.cfg.validation.batch_size, sampler_type='sequential', limit_number_of_volumes=None), num_workers=num_workers), loss_fns)",
+   "inference_on_environment: env.engine.predict(dataset, experiment_path, checkpoint=checkpoint, num_workers=num_workers, batch_size=batch_size, crop=crop)",
    "setup_inference_save_to_h5: (batch_size, crop)=(env.cfg.validation.batch_size, env.cfg.validation.crop)",
    "setup_inference_save_to_h5: (batch_size, crop)=(env.cfg.inference.batch_size, env.cfg.inference.crop)",
-   "setup_inference_save_to_h5: output=inference_on_environment(env=env, data_root=data_root, dataset_cfg=dataset_cfg, transforms=transforms, experiment_path=base_directory / run_name, checkpoint=checkpoint, num_workers=num_workers, filenames_filter=curr_filenames_filter, batch_size=batch_size, crop=crop)",
+   "setup_inference_save_to_h5: inference_on_environment(env=env, data_root=data_root, dataset_cfg=dataset_cfg, transforms=transforms, experiment_path=base_directory / run_name, checkpoint=checkpoint, num_workers=num_workers, filenames_filter=curr_filenames_filter, batch_size=batch_size, crop=crop)",
    "setup_inference_save_to_h5: write_output_to_h5(output, output_directory, output_key='reconstruction')",
    "site direct/engine.py: self.reconstruct_volumes",
    "site direct/inference.py: env.engine.predict",
